@@ -1,5 +1,7 @@
 import RbV.Basic.Codec
 import RbV.Ref.Smem
+import RbV.Model.FMDExt
+import RbV.Model.LFSortedCheck
 /-! Driver for property C06: FMD-index.
 
 `c06 smems <s1>/<s2>/… k:<rate> l:<l> <pattern> => <sa> <smems(p,0,l)>/…/<smems(p,|p|-1,l)> <all_smems(p,l)>`
@@ -69,6 +71,7 @@ def smemsVerdict (seqs : List (List Nat)) (k l : Nat) (p : List Nat) (out : Stri
 
 structure Chain where
   emptyStart : Bool
+  firstForward : Bool
   w : List Nat
   j : Nat
   dirs : List Char
@@ -81,9 +84,9 @@ def parseChain (s : String) : Option Chain :=
       let ds := if d = "-" then [] else d.toList
       if m = "e" then
         match ds with
-        | _ :: rest => pure ⟨true, w, j, rest⟩
+        | d0 :: rest => pure ⟨true, d0 = 'f', w, j, rest⟩
         | [] => none
-      else if m = "w" then pure ⟨false, w, j, ds⟩ else none
+      else if m = "w" then pure ⟨false, false, w, j, ds⟩ else none
   | _ => none
 
 /-- the strings a chain builds: w[j..j+1], then one per direction letter -/
@@ -100,6 +103,22 @@ def checkChain (T sa : List Nat) : List (List Nat) → List BiObs → Option Str
   | w :: ws, o :: os =>
     if !checkBi T sa w o then some ("bi-interval-of:" ++ toHex w ++ ":occ=" ++ showNatList (occurrences w T)) else
     if o.fhi = o.flo then (if os.isEmpty then none else some "steps-after-empty") else checkChain T sa ws os
+
+/-- the bi-intervals the mirror model produces for a chain (stops after the first empty one, like the harness) -/
+def modelChain (less : Nat → Nat) (occ : Nat → Nat → Nat) (n : Nat) (c : Chain) : List BiObs :=
+  let toObs (iv : FMDModel.Bi) : BiObs := ⟨iv.lower, iv.lower + iv.size, iv.lowerRev, iv.lowerRev + iv.size⟩
+  let start : FMDModel.Bi :=
+    if c.emptyStart then
+      (if c.firstForward then FMDModel.forwardExt less occ (FMDModel.initInterval n) (c.w.getD c.j 0)
+       else FMDModel.backwardExt less occ (FMDModel.initInterval n) (c.w.getD c.j 0))
+    else FMDModel.initIntervalWith less (c.w.getD c.j 0)
+  let rec go (iv : FMDModel.Bi) (lo hi : Nat) : List Char → List BiObs
+    | [] => [toObs iv]
+    | d :: ds =>
+      if iv.size = 0 then [toObs iv] else
+      if d = 'f' then toObs iv :: go (FMDModel.forwardExt less occ iv (c.w.getD hi 0)) lo (hi + 1) ds
+      else toObs iv :: go (FMDModel.backwardExt less occ iv (c.w.getD (lo - 1) 0)) (lo - 1) hi ds
+  go start c.j (c.j + 1) c.dirs
 
 def firstBadChain (T sa : List Nat) : List Chain → List (List BiObs) → Nat → Option String
   | c :: cs, r :: rs, n =>
@@ -120,7 +139,10 @@ def extVerdict (seqs : List (List Nat)) (k : Nat) (chains : List Chain) (out : S
       | some r => "reject " ++ r
       | none =>
         let steps := res.foldl (fun a r => a + r.length) 0
-        "ok" ++ tagIf (res.any (fun r => r.length ≥ 3)) "nt"
+        let bwt := LF.bwtOf T sa
+        let agrees := (chains.zip res).all (fun (c, r) => modelChain (LF.lessRef bwt) (LF.occRef bwt) sa.length c == r)
+        "ok" ++ (if agrees then " model=impl" else " drift")
+          ++ (if LF.sortedAllB T sa then " lf-sorted" else " not-lf-sorted") ++ tagIf (res.any (fun r => r.length ≥ 3)) "nt"
           ++ tagIf (chains.any (·.emptyStart)) "from-empty"
           ++ tagIf (res.any (fun r => r.any (fun o => o.fhi = o.flo))) "reaches-empty"
           ++ tagIf (res.any (fun r => r.any (fun o => o.fhi - o.flo ≥ 2))) "multi-occ"
